@@ -191,12 +191,14 @@ def run(ctx):
     range_and_sign(ctx, fb)
 
     # ------------------------------------------------------------------ C09-exact
-    ctx.rule("C09-exact", "+ - * / on exact operands (integer / ratio, every combination) with symbolic components: every path's result, "
+    ctx.rule("C09-exact", "+ - * / floor-quotient floor-remainder on exact operands (integer / ratio, every combination) with symbolic components "
+                          "(q = the greatest integer not above n/d, r = n - d*q): every path's result, "
                           "checked on the grid numerators -2..2 x denominators 1..3, is the mathematically exact result as an exact number "
                           "with a positive denominator; division by an exact zero — and nothing else — is an error; the compiler's "
                           "divide-by-zero assertions are never reached with a zero divisor")
     from . import numtables as _nt0
-    _nt0.rule_exact_arith(ctx, "C09-exact", {"+": OPS2["add"], "-": OPS2["sub"], "*": OPS2["mul"], "/": OPS2["div"]})
+    _nt0.rule_exact_arith(ctx, "C09-exact", {"+": OPS2["add"], "-": OPS2["sub"], "*": OPS2["mul"], "/": OPS2["div"],
+                                             "floor-quotient": "values::Number::floor_quotient", "floor-remainder": "values::Number::floor_remainder"})
     _nt0.rule_zero_guards(ctx, "C09-exact")
 
     # ------------------------------------------------------------------ C09-folds
